@@ -336,6 +336,15 @@ def record(case, st=None):
         return _record_adapter(s3d, index_of, bps, case, c, want_all)
     from rnapolis.tertiary import Mapping2D3D
     m = Mapping2D3D(s3d, bps, [], bool(case["gaps"]))
+    # environment action: every third mapping is asked for its extended rows first (the answers of an object
+    # must not depend on the order in which they are asked for)
+    import zlib
+    if zlib.crc32(str(case["id"]).encode()) % 3 == 0:
+        c["extfirst"] = True
+        try:
+            m.extended_dot_bracket
+        except Exception:
+            pass
     try:
         b = m.bpseq
         c["bpseq"] = {"err": "", "entries": [[e.index_, e.sequence, e.pair] for e in b.entries]}
